@@ -139,10 +139,23 @@ def finish(ctx, mod, write_evidence=True):
     # every reported violation is replayed in fresh processes first; a tree that breaks a property in hundreds of
     # distinctly named ways gets the first CAP of them replayed (signatures not listed as known findings first), the
     # rest is counted only - the exit status is 1 either way
-    CAP = 60
+    CAP = 120
     todo.sort(key=lambda s_: (core.known_for(prop, s_, known) is not None, s_))
-    skipped = todo[CAP:]
-    todo = todo[:CAP]
+    if len(todo) > CAP:
+        # round-robin over the kinds of signature (their first path component), so that one prolific kind does not
+        # crowd out the others
+        groups = {}
+        for s_ in todo:
+            groups.setdefault(s_.split('/')[0], []).append(s_)
+        picked = []
+        while len(picked) < CAP and any(groups.values()):
+            for g_ in sorted(groups):
+                if groups[g_] and len(picked) < CAP:
+                    picked.append(groups[g_].pop(0))
+        skipped = [s_ for s_ in todo if s_ not in set(picked)]
+        todo = picked
+    else:
+        skipped = []
     for s_ in skipped:
         del ctx.viol[s_]
     first = dict(zip(todo, core.isolated_calls_many(mod.__name__, ctx.seed, ctx.repo,
